@@ -10,6 +10,7 @@ from ..env import Sim
 from ..gen import drivers as G
 from ..gen import values as V
 from ..ref.device_model import expected_defs
+from ..ref.structural import view_of_message
 from ..simnet import NetConfig
 from ..simpool import PoolConfig
 from ..worlds.ops import apply_step
@@ -72,7 +73,18 @@ def generate(seed, tier, index):
     net = {"latency": rng.choice(["zero", "lan", "slow", "bursty"]),
            "frag": rng.choice(["whole", "fixed:1", "fixed:7", "fixed:64", "random", "coalesce"]),
            "hwm": rng.choice([0, 64, 65536])}
-    return {"devices": specs, "nclients": 1, "steps": steps, "net": net, "seed": rng.randrange(1 << 30)}
+    reactive = None
+    if rng.random() < 0.3:
+        # an in-process client (a snooping driver, a script) that answers the definition of one property by writing another
+        # one at once - i.e. while the driver is still in the middle of answering the getProperties
+        wr = [(d, v) for d, v in vecs if v["kind"] in ("Text", "Number", "Switch") and v["perm"] != "ro"]
+        if wr:
+            d, tgt = rng.choice(wr)
+            trig = rng.choice([v for dd, v in vecs if dd == d])
+            e = rng.choice(list(tgt["elements"].values()))
+            reactive = {"dev": d, "trigger": trig["name"], "target": tgt["name"], "el": e["name"], "kind": tgt["kind"],
+                        "sexa": tgt["kind"] == "Number" and V.is_sexa(e["format"])}
+    return {"devices": specs, "nclients": 1, "steps": steps, "net": net, "seed": rng.randrange(1 << 30), "reactive": reactive}
 
 
 def _n(t):
@@ -153,6 +165,48 @@ def execute(scen):
     classes = set()
     with Sim(scen["seed"], cfg, PoolConfig()) as sim:
         stack = Stack(sim, scen["devices"])
+        rx = scen.get("reactive")
+        request = {"on": False, "ctx": "", "n": 0, "armed": False}
+        if rx:
+            from indi import message as M
+            from indi.routing import Client as RouterClient
+
+            class Reactor(RouterClient):
+                def message_from_device(self, msg):
+                    if not (request["armed"] and msg.tag_name().startswith("def") and getattr(msg, "device", None) == rx["dev"]
+                            and getattr(msg, "name", None) == rx["trigger"]):
+                        return
+                    request["armed"] = False
+                    request["n"] += 1
+                    n = request["n"]
+                    if rx["kind"] == "Text":
+                        new = M.NewTextVector(device=rx["dev"], name=rx["target"], children=(M.one_parts.OneText(name=rx["el"], value=f"reacted{n}"),))
+                    elif rx["kind"] == "Number":
+                        new = M.NewNumberVector(device=rx["dev"], name=rx["target"],
+                                                children=(M.one_parts.OneNumber(name=rx["el"], value=(f"{n % 20}:30:00" if rx["sexa"] else str(n))),))
+                    else:
+                        new = M.NewSwitchVector(device=rx["dev"], name=rx["target"], children=(M.one_parts.OneSwitch(name=rx["el"], value="On"),))
+                    probes["client_wrote_while_getProperties_was_being_answered"] = probes.get("client_wrote_while_getProperties_was_being_answered", 0) + 1
+                    stack.router.process_message(new, sender=self)
+
+            stack.router.register_client(Reactor())
+
+        def at_emission(origin, sender, message):
+            # every definition a driver emits while a request is being answered lists the driver's state at THAT moment
+            if not request["on"] or origin != "driver" or viol:
+                return
+            tag = message.tag_name()
+            if not (tag.startswith("def") and tag.endswith("Vector")):
+                return
+            dname = sender.name
+            if dname not in stack.specs:
+                return
+            now = expected_defs(stack.truth(dname), message.name)
+            if now:
+                check_def(view_of_message(message), now[0], dname, viol, dict(facts, kind=now[0]["truth"]["kind"], at_emission=True),
+                          request["ctx"] + " (judged when the definition was emitted)")
+
+        stack.hooks.append(at_emission)
         stack.add_client(start=False)
         names = set(stack.drivers)
         v0 = []
@@ -200,9 +254,14 @@ def execute(scen):
                     viol.append({"clause": "C07.defs", "detail": "driver lacks group objects its definition declares", "facts": facts})
                     break
                 mark = len(stack.router_log)
+                ctx = f"getProperties device={st['device']!r} name={st['name']!r}"
+                request.update(on=True, ctx=ctx, armed=bool(rx))
                 res = apply_step(stack, {"op": "c_handshake", "c": 0, "device": st["device"], "name": st["name"]})
                 sim.settle()
-                ctx = f"getProperties device={st['device']!r} name={st['name']!r}"
+                reacted = bool(rx) and not request["armed"]
+                request.update(on=False, armed=False)
+                if viol:
+                    break
                 dev_cls = "absent" if st["device"] is None else ("existing" if st["device"] in names else "unknown")
                 nm = st["name"]
                 if nm is None:
@@ -235,6 +294,8 @@ def execute(scen):
                         viol.append({"clause": "C07.defs", "detail": f"device {d} emitted definitions {got_ids}, expected {exp_ids}; {ctx}", "facts": dict(facts, dev=dev_cls, name=name_cls)})
                         break
                     for e in exp:
+                        if reacted:
+                            break  # the state moved while the answer was being given: the definitions were judged at emission
                         g = [x for x in got if dict(x[1]).get("name") == e["name"]][0]
                         check_def(g, e, d, viol, dict(facts, kind=e["truth"]["kind"]), ctx)
                         if viol:
